@@ -188,6 +188,7 @@ class Report:
             if self._failed_cls.get(cls, 0) >= 4:
                 break
             ok, out = self.replay(name, c)
+            last = {'inputs': _short(c.get('inputs')), 'output': out.strip()[-300:]}
             if not ok:
                 self._failed_cls[cls] = self._failed_cls.get(cls, 0) + 1
             if ok:
@@ -200,7 +201,7 @@ class Report:
                         break
             except Exception:
                 pass
-        self.spurious.append({'ob': name, 'why': 'sat but no model reproduced'})
+        self.spurious.append({'ob': name, 'why': 'sat but no model reproduced', 'last': locals().get('last')})
         return 'sat'
 
     def replay(self, name, c):
@@ -517,8 +518,9 @@ def run_property(prop, tier, seed, families, meta, jobs=None):
         'wall_s': round(time.time() - t0, 2),
         'violations': len(violations),
     }
-    os.makedirs(os.path.join(VERIF, 'evidence'), exist_ok=True)
-    with open(os.path.join(VERIF, 'evidence', prop + '.json'), 'w') as f:
+    evdir = os.environ.get('VERIF_EVIDENCE_DIR') or os.path.join(VERIF, 'evidence')   # override only used by tools/try_seeded.sh
+    os.makedirs(evdir, exist_ok=True)
+    with open(os.path.join(evdir, prop + '.json'), 'w') as f:
         json.dump(ev, f, indent=1, default=str)
     for c, desc in knowns:
         print('KNOWN-FINDING: property=%s %s [%s] replay=%s' % (prop, desc, c['cls'], c['replay']))
